@@ -128,6 +128,12 @@ def decode_check(res, bits, v, dt, dmap, maptype, mk, from_frame, FF, Command, c
     else:
         exp = ("command", "Command", (v,))
     try:
+        txt = str(r)
+        if not isinstance(txt, str):
+            raise TypeError("str() returned " + type(txt).__name__)
+    except Exception as e:
+        add_violation(res, f"C01:str-raises:{bits}", f"str(from_frame({bits},{v:#x},dt={dt},map={mk})) raised {e!r}", case)
+    try:
         got = R.describe(r)
     except Exception as e:
         add_violation(res, f"C01:describe:{bits}", f"attributes of decoded {type(r).__name__} unreadable: {e!r}", case)
@@ -193,8 +199,15 @@ def _run_order(res, mode, part, parts):
     def dec(a):
         bits, v, dt, mk = a
         dmap, _ = maps[mk]
-        r = from_frame(FF(bits, v), devicetype=dt, dev_inst_map=dmap)
-        return (type(r).__module__, type(r).__name__, len(r.frame), r.frame.as_integer, str(r),
+        try:
+            r = from_frame(FF(bits, v), devicetype=dt, dev_inst_map=dmap)
+        except Exception as e:          # judged by the enumeration shards; here only order matters
+            return ("EXC", repr(e))
+        try:
+            txt = str(r)
+        except Exception as e:
+            txt = "EXC:" + repr(e)
+        return (type(r).__module__, type(r).__name__, len(r.frame), r.frame.as_integer, txt,
                 repr(sorted((k, str(x)) for k, x in vars(r).items() if k != "_data")))
 
     for a in A:
@@ -338,8 +351,11 @@ def replay(case):
 
         def dec(a):
             bits, v, dt, mk = a
-            r = from_frame(FF(bits, v), devicetype=dt, dev_inst_map=maps[mk][0])
-            return (type(r).__name__, len(r.frame), r.frame.as_integer, str(r))
+            try:
+                r = from_frame(FF(bits, v), devicetype=dt, dev_inst_map=maps[mk][0])
+                return (type(r).__name__, len(r.frame), r.frame.as_integer, str(r))
+            except Exception as e:
+                return ("EXC", repr(e))
         base = dec(seq[-1])          # NB: baseline in this process image
         for a in seq[:-1]:
             dec(a)
